@@ -38,7 +38,7 @@ contract("C01.check_invalid_character_issues", file=CU, func="CharValidator.chec
 # C01 / C12: invalid characters inside a tag are reported at exactly their tag-relative position
 contract("C01.check_invalid_chars", file=CU, func="CharValidator._check_invalid_chars",
          params={"check_string": "Str", "allowed_chars": "Str", "source_tag": "HedTag", "starting_index": "Int", "error_code": "Opt[Str]"},
-         returns="List[Issue]", enc="array", prop="C01",
+         returns="List[Issue]", enc="array", prop="C01", also=["C12"],
          requires=["0 <= starting_index", "starting_index + len(check_string) <= len(source_tag.tag)"],
          locals={"validation_issues": "List[Issue]"},
          ensures={
